@@ -23,7 +23,8 @@ type c02Elem struct {
 	class string   // shape class for finding keys
 }
 
-var c02BindCands = []string{"a", "b", "ab", "1", "12", "a%2Fb", "%61", "%zz", "%2561", "%", "ba", "\n", "a\nb", "\x00", "\xff", "A", "aB"}
+// ("+%61", "a+%2Fb": a plus sign next to an escape - a path is not a query string, the plus stays a plus)
+var c02BindCands = []string{"a", "b", "ab", "1", "12", "a%2Fb", "%61", "%zz", "%2561", "%", "ba", "\n", "a\nb", "\x00", "\xff", "A", "aB", "+%61", "a+%2Fb"}
 
 func c02Elements(full bool) []c02Elem {
 	var out []c02Elem
@@ -432,7 +433,7 @@ func c02Run(r *core.Run) {
 	}
 	segs := c02Segments(r.Thorough())
 	generic := stringsOver([]string{"a", "b", "1", "+", ".", "-"}, maxLen)
-	generic = append(generic, "", "(v)", "a(v)", "%61", "a%2Fb")
+	generic = append(generic, "", "(v)", "a(v)", "%61", "a%2Fb", "+%61", "a+b%2B")
 	r.Bounds["segments"] = len(segs)
 	r.Bounds["generic_texts_per_segment"] = len(generic)
 	{
@@ -532,7 +533,7 @@ func c02Run(r *core.Run) {
 	// match-all family
 	maRoutes := []string{"/{m: **}", "/{m: **, capture: 2}", "/{**}", "/n/{m: **}/e", "/{m: **}/{x}", "/{m: **, capture: 2}/e", "/n/?{m: **}",
 		"/{m: **}/e/{k: **}", "/{x}/{m: **, capture: 3}", "/{m: **, capture: 1}/{y: /[ab]+/}", "/n/{x}/?{y}", "/{x}/{y}/{z}"}
-	maSegAlpha := []string{"a", "", "a%2Fb", "e", "n", "%zz"}
+	maSegAlpha := []string{"a", "", "a%2Fb", "e", "n", "%zz", "+%61"}
 	maPaths := pathsOver(maSegAlpha, 4, []string{"", "//n/a/e", "n/a/e"})
 	if r.Thorough() {
 		maPaths = pathsOver(maSegAlpha, 6, []string{"", "//n/a/e", "n/a/e"})
